@@ -1,12 +1,59 @@
 import PycModel.Properties.Tables
+import PycModel.Proofs.ClimbConcrete
 /-!
 # C02 — expression ASTs follow C precedence, associativity and operator binding
 
 Specification: `Spec/Expr.lean` (`Expr`, `render`, `toVal`).  Full statement (kept visible):
 for every expression tree `e`, every admissible decoration `d` and every expression context,
 the parser model returns `e.toVal` on `render q e d`.  Table obligations: `Properties/Tables.lean`.
+
+Proved here, for trees of any size and depth: the **binary-operator layer** of that statement.
+`Climb.WF binPrec m t` says `t` is derivable from the level-`m` nonterminal of the C expression
+grammar (`E_m ::= E_m op_m E_{m+1} | E_{m+1}`, ten levels, all left-associative: 6.5.5-6.5.14),
+with the level table `binPrec` that `Tables.impl_prec_is_c99` ties to `_BINARY_PRECEDENCE` of
+`c_parser.py` and to C99.  Operands (cast-expressions) are abstract: `OperandSpec` is the
+hypothesis that the operand parser parses each operand.
 -/
 namespace PycModel.C02
-open PycModel
+open PycModel PycModel.Climb PycModel.ClimbSim PycModel.ClimbConcrete PycModel.View
+
+/-- **Binary operators group exactly as the C grammar says.** In every parser state that sees the
+in-order tokens of a tree `t` of the level-`m` expression nonterminal followed by a continuation
+`k` that does not start with an operand or a binary operator of level `m` or tighter,
+`_parse_binary_expression(min_prec = m)` (model: `run F (.binaryExpression m none)`, any sufficient
+fuel) returns `BinaryOp` nodes nested exactly like `t` - tighter levels deeper, equal levels to
+the left - each at the coordinate of its left operand, and leaves exactly `k` unread.
+The stream behaviour of `peek` / `advance` is proved (`Proofs/TokenView.lean`), not assumed. -/
+theorem binary_operators_group_as_the_grammar_says
+    (Op : Nat → Val → List Tk → Prop) (Follow : List Tk → Prop) (fuel0 : Nat)
+    (hop : OperandSpec Op Follow fuel0)
+    (t : BT) (m : Nat) (hwf : WF binPrec m t) (hn : Nodes t)
+    (k : List PT) (hk : StopAt binPrec m k) (hkt : ∀ x ∈ k, PTok' x)
+    (s : PState) (hs : SeesPT Op Follow s (t.toks ++ k)) :
+    ∃ F0, ∀ F, F0 ≤ F → ∃ s', run F (.binaryExpression m none) s = .ok (toVal t) s' ∧ SeesPT Op Follow s' k :=
+  binary_expression_parses_grammar_tree (iface Op Follow fuel0 hop) t m hwf hn k hk hkt s hs
+
+/-- the pure algorithm (mirror of the two nested loops) returns the grammar's tree on every
+well-formed token list, for every sufficient fuel -/
+theorem precedence_climbing_correct (t : BT) (m : Nat) (h : WF binPrec m t) (k : List PT) (hk : StopAt binPrec m k) :
+    ∃ f0, ∀ f, f0 ≤ f → climb binPrec f m none (t.toks ++ k) = some (t, k) :=
+  climb_correct binPrec t m h k hk
+
+/-- **"the unique tree the C grammar assigns"**: two derivations of the same token list from the
+same level are the same tree -/
+theorem grammar_tree_unique (t1 t2 : BT) (m : Nat) (h1 : WF binPrec m t1) (h2 : WF binPrec m t2)
+    (h : t1.toks = t2.toks) : t1 = t2 :=
+  wf_tree_unique binPrec t1 t2 m h1 h2 h
+
+/-- non-vacuity: `a - b * c - d == e` is a level-0 tree, grouped `((a - (b * c)) - d) == e` -/
+example (a b c d e : Val) :
+    WF binPrec 0
+      (.node "EQ" "=="
+        (.node "MINUS" "-" (.node "MINUS" "-" (.leaf a) (.node "TIMES" "*" (.leaf b) (.leaf c))) (.leaf d))
+        (.leaf e)) := by
+  refine .node 0 5 _ _ _ _ (by decide) (by decide) ?_ (.leaf _ _)
+  refine .node 5 8 _ _ _ _ (by decide) (by decide) ?_ (.leaf _ _)
+  refine .node 8 8 _ _ _ _ (by decide) (by decide) (.leaf _ _) ?_
+  exact .node 9 9 _ _ _ _ (by decide) (by decide) (.leaf _ _) (.leaf _ _)
 
 end PycModel.C02
